@@ -140,7 +140,10 @@ def _num_jac(m, t, y):
         return J
 
     h = 1e-3
-    return (4 * cd(h / 2) - cd(h)) / 3
+    a, b = cd(h), cd(h / 2)
+    # Richardson extrapolation and, entry by entry, how far the two step sizes disagree: near a pole of a rate
+    # law the higher derivatives are huge and the estimate is only as good as that
+    return (4 * b - a) / 3, np.abs(b - a)
 
 
 def examine(case: dict, ctx) -> Outcome:
@@ -256,14 +259,14 @@ def examine(case: dict, ctx) -> Outcome:
     except Exception as e:  # noqa: BLE001
         out.bad(f"jacobian-not-evaluable:{type(e).__name__}:{root}", error=repr(e)[:200])
         return out
-    Jfd = _num_jac(m, case["time"], y)
+    Jfd, Jerr = _num_jac(m, case["time"], y)
     if not np.all(np.isfinite(Jn)):
         # e.g. 0**x * log(0) when a power's base is exactly 0 at this point: the derivative does not exist there
         out.classes.append("jacobian-nonfinite-at-singular-point")
         return out
     if "conditional_rate_law" not in feats:  # conditionals are not differentiable at their boundary
         scale = 1 + np.abs(Jfd).max()
-        if not np.all(np.abs(Jn - Jfd) <= 1e-5 * scale):
+        if not np.all(np.abs(Jn - Jfd) <= 1e-5 * scale + 2 * Jerr):
             out.bad(f"jacobian-differs:{root}", symbolic=Jn.tolist(), finite_difference=Jfd.tolist())
             return out
     out.classes.append("jacobian-compared")
@@ -345,6 +348,11 @@ def examine(case: dict, ctx) -> Outcome:
                 plain = None
             if plain is None or isinstance(plain, Exception):
                 out.classes.append(f"method-fails-without-jacobian-too:{method}")
+                continue
+            if "conditional_rate_law" in feats or nonsmooth:
+                # a discontinuous right-hand side is not integrated to tolerance by either run (the step sequences
+                # differ across the jump): only crashes and the use of the Jacobian are judged
+                out.classes.append(f"trajectory-not-compared-nonsmooth:{method}")
                 continue
             a, b = r.variables.to_numpy(), plain.variables.to_numpy()
             if a.shape != b.shape or not np.all(np.abs(a - b) <= 1e-4 * (1 + np.abs(b))):
